@@ -1,8 +1,89 @@
-(** C07 — exported statements only. *)
+(** C07 — signed EVM transactions execute at most once, in nonce order, on this chain.
+    Exported statements only.  [chain] is this chain's EIP-155 id, [recover] any chain-agnostic
+    signature-recovery function, [ds] any decorator chain that is well formed ([chain_wf]: the
+    ValidateBasic, SigVerify, VerifyEthAcc, IncrementSeq decorators once each in this order — the
+    chain of /repo is re-extracted on every run, Gen/C07Oblig.v). *)
 From Coq Require Import List Bool Arith NArith ZArith.
 Import ListNotations.
 Require Import Nib.C07.Model Nib.C07.Spec Nib.C07.Facts Nib.C07.Proofs.
 
+(** A single-message tx is accepted iff the signature recovers an address, the chain id it
+    carries (EIP-155 or typed) is this chain's, the remaining (balance/fee) checks pass and its
+    nonce equals the signer's current sequence; the only effect on sequences is signer + 1. *)
+Theorem C07_accept_iff_nonce_and_chain :
+  forall chain recover ds s m s', chain_wf ds = true ->
+  (ante chain recover ds s [m] = Some s' <->
+   exists a, recover m = Some a /\ (m_cid m = None \/ m_cid m = Some chain) /\ m_funded m = true /\
+             m_nonce m = s a /\ s' = upd s a (N.succ (s a))).
+Proof. exact accept_iff_single. Qed.
+Print Assumptions C07_accept_iff_nonce_and_chain.
+
+(** Several messages in one tx: accepted iff non-empty, every message passes the other checks and
+    each nonce equals the sequence as left by the previous messages of the same tx (n, n+1, …);
+    otherwise the whole tx is rejected. *)
+Theorem C07_accept_multi_message :
+  forall chain recover ds s ms s', chain_wf ds = true ->
+  (ante chain recover ds s ms = Some s' <->
+   ms <> [] /\ forallb m_funded ms = true /\ accepts chain recover s ms s').
+Proof. exact accept_iff_general. Qed.
+Print Assumptions C07_accept_multi_message.
+
+(** A rejected tx (ante failure on either path) leaves every sequence untouched. *)
+Theorem C07_rejected_changes_nothing :
+  forall chain recover ds s t,
+  r_accepted (snd (deliver chain recover ds s t)) = false -> fst (deliver chain recover ds s t) = s.
+Proof. exact rejected_changes_nothing. Qed.
+Print Assumptions C07_rejected_changes_nothing.
+
+(** Each accepted message raises its signer's sequence by exactly one — whether execution
+    succeeds, reverts, runs out of gas or the msg server fails — and the msg-server bracket
+    SetNonce(n) … SetNonce(n+1) ends on the same value. *)
+Theorem C07_sequence_plus_one_per_accepted :
+  forall chain recover ds s t, chain_wf ds = true ->
+  r_accepted (snd (deliver chain recover ds s t)) = true ->
+  forall a, fst (deliver chain recover ds s t) a =
+            (s a + N.of_nat (length (proj a (tx_claims chain recover t))))%N.
+Proof. exact sequence_plus_one_per_accepted. Qed.
+Print Assumptions C07_sequence_plus_one_per_accepted.
+
+(** Over ANY history of Ethereum and Cosmos-signed txs (duplicates, gaps, reordering, multi-message
+    txs, failing executions, any number of blocks): per account the sequence numbers of the
+    accepted messages are s0, s0+1, s0+2, … in order — one numbering shared by both tx families —
+    and the final sequence is s0 + their number. *)
+Theorem C07_nonce_order_shared_sequence :
+  forall chain recover ds, chain_wf ds = true -> forall ts s a,
+  proj a (acc_claims chain recover (trace chain recover ds s ts)) =
+    Nseq (s a) (length (proj a (acc_claims chain recover (trace chain recover ds s ts)))) /\
+  final s (trace chain recover ds s ts) a =
+    (s a + N.of_nat (length (proj a (acc_claims chain recover (trace chain recover ds s ts)))))%N.
+Proof. exact history_consecutive. Qed.
+Print Assumptions C07_nonce_order_shared_sequence.
+
+(** At most once: in any history no signed transaction (identified by its hash, which binds signer
+    and nonce) is executed twice. *)
+Theorem C07_at_most_once :
+  forall chain recover ds s ts u, chain_wf ds = true -> hash_binding chain recover ts ->
+  (count_occ Nat.eq_dec (all_executed (trace chain recover ds s ts)) u <= 1)%nat.
+Proof. exact at_most_once. Qed.
+Print Assumptions C07_at_most_once.
+
+(** A contract is created at create_addr(signer, k) with k the TRANSACTION's nonce (the value the
+    msg server writes before the EVM runs), also when the account sequence is already ahead. *)
+Theorem C07_create_address :
+  forall chain recover ds s ms s' r, deliver chain recover ds s (TxEth ms) = (s', r) ->
+  forall u k, In (u, k) (r_created r) ->
+  exists m, In m ms /\ m_uid m = u /\ m_nonce m = k /\ m_create m = true /\ m_exec m = ExecOk.
+Proof. exact created_at_tx_nonce. Qed.
+Print Assumptions C07_create_address.
+
+(** The trace predicate evaluated on implementation traces holds of every model trace. *)
+Theorem C07_model_satisfies_P :
+  forall chain recover A ds s ts, chain_wf ds = true -> hash_binding chain recover ts ->
+  P chain recover A s (trace chain recover ds s ts).
+Proof. exact model_satisfies_P. Qed.
+Print Assumptions C07_model_satisfies_P.
+
+(** … and the boolean checker is sound for it. *)
 Theorem C07_checker_sound :
   forall chain recover A s0 tr, Pb chain recover A s0 tr = true -> P chain recover A s0 tr.
 Proof. exact Pb_sound. Qed.
